@@ -1,2 +1,4 @@
 import Spec.Pairing
 import Spec.AllotSpec
+import Spec.Draw
+import Spec.Distribute
